@@ -333,9 +333,47 @@ class Seg:
             i = end
         self._scan_pos = i
 
+    def _edge_n(self, avail, pos):
+        """Octets up to the next frame-border cut after absolute stream offset ``pos``."""
+        self._scan()
+        i = self._cut_i
+        while i < len(self._cuts) and self._cuts[i] <= pos:
+            i += 1
+        if pos == self._delivered():
+            self._cut_i = i
+        if i < len(self._cuts):
+            return max(1, min(avail, self._cuts[i] - pos))
+        return avail
+
+    def next_burst(self, avail):
+        """'tlsburst' policy: the sizes of k = 2..6 consecutive chunks that reach the protocol back to back
+        inside ONE read event (cuts at frame borders +-1 / inside headers, tiny, or random sizes)."""
+        rng = self.rng
+        k = rng.randint(2, 6)
+        mode = rng.choice(["edges", "edges", "small", "random", "mixed"])
+        sizes, left, pos = [], avail, self._delivered()
+        for _ in range(k):
+            if left <= 0:
+                break
+            m = rng.choice(["edges", "small", "random"]) if mode == "mixed" else mode
+            if m == "edges":
+                n = self._edge_n(left, pos)
+            elif m == "small":
+                n = rng.randint(1, 4)
+            else:
+                n = rng.choice([1, 2, 3, 5, 8, 13, 64, 125, 126, 127, 1000, 4096, 65536, 70000])
+            n = max(1, min(n, left))
+            sizes.append(n)
+            left -= n
+            pos += n
+        self.reads += 1
+        return sizes
+
     def next_n(self, avail):
         self.reads += 1
         p, rng = self.policy, self.rng
+        if p == "tlsburst":       # used where only one chunk can be delivered (e.g. the peer is a Twisted endpoint)
+            return self.next_burst(avail)[0]
         if p == "whole":
             return avail
         if p == "bytewise":
